@@ -269,19 +269,23 @@ impl Cfg {
     /// know their ranges. This function will take a register and return the ranges
     /// that need to be annotated. If it cannot find any, then it will return the original
     /// node's range.
-    /// Neighbours in source order, so that searches do not depend on the
-    /// iteration order of the hash sets.
-    fn in_source_order(nodes: &HashSet<Rc<CfgNode>>) -> Vec<Rc<CfgNode>> {
+    /// Neighbours in program order, so that searches do not depend on the
+    /// iteration order of the hash sets (nor on which file a node is in).
+    fn in_program_order(&self, nodes: &HashSet<Rc<CfgNode>>) -> Vec<Rc<CfgNode>> {
         let mut nodes = nodes.iter().cloned().collect::<Vec<_>>();
-        nodes.sort_by_key(|n| (n.file(), n.range()));
+        nodes.sort_by_key(|n| self.nodes.iter().position(|other| Rc::ptr_eq(other, n)));
         nodes
     }
 
-    pub fn error_ranges_for_first_store(node: &Rc<CfgNode>, item: Register) -> Vec<RegisterToken> {
+    pub fn error_ranges_for_first_store(
+        &self,
+        node: &Rc<CfgNode>,
+        item: Register,
+    ) -> Vec<RegisterToken> {
         let mut queue = VecDeque::new();
         let mut ranges = Vec::new();
         // push the previous nodes onto the queue
-        queue.extend(Self::in_source_order(&node.prevs()));
+        queue.extend(self.in_program_order(&node.prevs()));
 
         // keep track of visited nodes
         #[allow(clippy::mutable_key_type)]
@@ -302,19 +306,23 @@ impl Cfg {
                     continue;
                 }
             }
-            queue.extend(Self::in_source_order(&prev.prevs()));
+            queue.extend(self.in_program_order(&prev.prevs()));
         }
         ranges
     }
 
     // TODO move to a more appropriate place
     // TODO make better, what even is this?
-    pub fn error_ranges_for_first_usage(node: &Rc<CfgNode>, item: Register) -> Vec<RegisterToken> {
+    pub fn error_ranges_for_first_usage(
+        &self,
+        node: &Rc<CfgNode>,
+        item: Register,
+    ) -> Vec<RegisterToken> {
         let mut queue = VecDeque::new();
         let mut ranges = Vec::new();
         // push the next nodes onto the queue
 
-        queue.extend(Self::in_source_order(&node.nexts()));
+        queue.extend(self.in_program_order(&node.nexts()));
 
         // keep track of visited nodes
         #[allow(clippy::mutable_key_type)]
@@ -346,7 +354,7 @@ impl Cfg {
                 break;
             }
 
-            queue.extend(Self::in_source_order(&next.nexts()));
+            queue.extend(self.in_program_order(&next.nexts()));
         }
         ranges
     }
